@@ -24,3 +24,14 @@ Theorem C15_attempt_over_retries : forall elapsed lifetime qt attempt,
   elapsed < lifetime -> match qt with Some t => t | None => lifetime end <= attempt ->
   query_left elapsed lifetime qt attempt = Err IO_TIMEDOUT.
 Proof. exact attempt_over_retries. Qed.
+(* in absolute time: whatever the blocking client arms at [now] expires by start + lifetime, the
+   deadline of the CALL — for the UDP exchange, TCP connect/write, and the TCP prefix and body
+   reads alike (which clock each one reads is re-extracted from the source on every run) *)
+Theorem C15_armed_before_call_deadline : forall now start qs lifetime qt tau,
+  start <= qs -> qs <= now ->
+  (lifetime_left_at now start qs lifetime = Ok tau -> 0 < tau /\ now + tau <= start + lifetime) /\
+  (query_left_at now start qs lifetime qt = Ok tau ->
+     0 < tau /\ now + tau <= start + lifetime /\ now + tau <= qs + match qt with Some t => t | None => lifetime end) /\
+  (tcp_prefix_timeout_at now start qs lifetime = Ok tau -> 0 < tau /\ now + tau <= start + lifetime) /\
+  (tcp_body_timeout_at now start qs lifetime = Ok tau -> 0 < tau /\ now + tau <= start + lifetime).
+Proof. exact armed_before_call_deadline. Qed.
